@@ -138,6 +138,9 @@ MASKS = [((0, 1),), ((0, 1), (0, 2)), ((0, 1), (3, 1)), ((0, 1), (2, 3)), ((0, 1
          ((0, 1), (2, 3), (1, 3)), ((0, 1), (2, 3), (1, 2)), ((0, 1), (2, 3), (0, 2))]     # two groups joined by a later pair
 
 
+OFFSET_MASKS = MASKS[:6]
+
+
 @contract('C16/constraints.impose_as', ['C16', 'C11'], K + 'impose_as.dec.func', samples=200)
 def impose_as(h):
     """no offset; masks in the documented form (each pair (i, j) ties entry j to entry i; groups given root first):
@@ -149,6 +152,21 @@ def impose_as(h):
     x0 = h.snapshot(x)
     f = h.fn('F', ret='real', log='calls')
     m = h.clist([h.tup(a, b) for a, b in mask]) if h.is_sym() else list(mask)
+    with_offset = h.choice('offset', [False, True]) if mask in OFFSET_MASKS else False
+    if with_offset:
+        # "the tracked partner (+offset)": for every pair (i, j) entry j ends at entry i + offset (masks whose pairs ask for
+        # nothing contradictory; the accumulation sub-cases on other masks are finding F35)
+        off = h.real('offset_value')
+        func = h.call(h.call(h.get(K + 'impose_as'), m, off), f)
+        h.call(func, x)
+        calls = h.log('calls')
+        h.check('decorated-function-called-once', 'len(calls) == 1 and len(calls[0][0]) == n', calls=calls, n=n)
+        y = calls[0][0]
+        h.check('every-tracked-entry-is-its-partner-plus-the-offset', ' and '.join('y[%d] == y[%d] + off' % (b, a) for a, b in mask), y=y, off=off)
+        rest = [q for q in range(n) if not any(q in pr for pr in mask)]
+        h.check('entries-in-no-pair-unchanged', ' and '.join('y[%d] == x0[%d]' % (q, q) for q in rest) or 'True', y=y, x0=x0)
+        h.check('input-vector-not-modified', 'seq_eq(x, x0)', x=x, x0=x0)
+        return
     func = h.call(h.call(h.get(K + 'impose_as'), m), f)
     h.call(func, x)
     calls = h.log('calls')
